@@ -80,6 +80,42 @@ structure Hold (α : Type) where
 def Hold.step (w : Nat) (h : Hold α) (draw : α) : Hold α × α × Bool :=
   if h.cur == w then (⟨1, draw⟩, draw, true) else (⟨h.cur + 1, h.value⟩, h.value, false)
 
+/-- `square_modulated_mode::compute_cross_correlation(sample_size)`: the table of within-sample
+lag correlations, computed exactly as the nested loops of the source do (counts are small naturals;
+only the final quotient is a scalar).  `fuel` bounds the two `while` loops. -/
+def crossCorrelationTable (w n : Nat) : Array α := Id.run do
+  if n ≤ w then return Array.replicate w one
+  let mut matrix : Array Nat := Array.replicate (n*n) 0
+  let mut cur := 0
+  let mut populations := 0
+  -- while (cur != width)
+  for _ in [0:(w+1)] do
+    if populations > 0 ∧ cur == w then break
+    let mut ioff := 0
+    -- while (ioff < sample_size)
+    for _ in [0:(n+1)] do
+      if ioff ≥ n then break
+      let mut stop := w
+      if ioff + stop > n then stop := n - ioff
+      if cur == w then cur := 0
+      -- for (; cur < end; cur++)
+      for _ in [0:(w+1)] do
+        if cur ≥ stop then break
+        for col in [cur:stop] do
+          let idx := ioff*n + (ioff + col - cur)
+          matrix := matrix.modify idx (· + 1)
+        ioff := ioff + 1
+        cur := cur + 1
+    populations := populations + 1
+  let mut table : Array α := Array.replicate w zero
+  for ilag in [0:w] do
+    let nrow := n - ilag
+    let mut sum := 0
+    for irow in [0:nrow] do
+      sum := sum + matrix[irow*n + (irow + ilag)]!
+    table := table.set! ilag ((Arith.ofNat sum : α) / Arith.ofNat (nrow * populations))
+  return table
+
 /-- which repairs the current source contains -/
 def currentNSqRepaired : Bool := true
 def currentLag0Repaired : Bool := true
